@@ -4,6 +4,7 @@ From PowHsm Require Import Model.LedgerProtocol Proofs.C13.
 From PowHsm Require Import Gen.Src Proofs.SrcEquivLedger.
 From PowHsm Require Import Gen.SrcM Proofs.SrcEquivDongleM.
 From PowHsm Require Import Proofs.SrcEquivProtoM Proofs.SrcEquivStateM Proofs.SrcEquivHeartbeatM Proofs.SrcEquivParamsProtoM.
+From PowHsm Require Import Proofs.SrcEquivSignProtoM Proofs.SrcEquivBlockM Proofs.SrcEquivBlockProtoM Proofs.SrcEquivGateM Proofs.SrcLiftGate Proofs.SrcLiftC13.
 Open Scope N_scope.
 
 (* getPubKey: whatever key bytes the device returns for the requested path are the reply's
@@ -172,3 +173,18 @@ Theorem C13_source_parameters_handler_is_model :
   srcm_HSM2ProtocolLedger___get_blockchain_parameters init self request w =
   mres rtuple_pv (op_parameters kind req w).
 Proof. exact srcm_parameters_handler_ok. Qed.
+
+(* C13 ON THE TRANSLATED REQUEST PATH: for a getPubKey request the gate accepts, whatever key bytes the device answers
+   are the reply's pubKey, hex-encoded, with errorcode 0, and the only APDU sent is GET_PUBLIC_KEY with the requested
+   path - stated of __internal_handle_request as translated from the source *)
+Theorem C13_source_request_path_pubkey_verbatim :
+  forall (keccak : bytes -> bytes) (kind : dongle_kind) (init : pm pv) (cm : string -> pv -> list pv -> pr pv)
+         fuel self request (req : obj) path els k sc cn op tr p rp fs,
+  let w := mkWorld (Data k :: sc) cn op tr false p rp fs in
+  env_ok keccak kind init cm fuel w ->
+  gate_request V5 request = GAccept (s "getPubKey") req ->
+  jget (s "keyId") req = Some (JStr path) -> bip32_path path = Some els ->
+  srcm_HSM2ProtocolLedger____internal_handle_request fuel cm init self (of_json request) w =
+  (XOk (of_json (JObj [(s "pubKey", JStr (hex k)); (KEY_ERRORCODE, JInt 0)])),
+   mkWorld sc cn op (Apdu (CLA :: CMD_GET_PUBLIC_KEY :: path_to_binary els) (Data k) :: tr) false p rp fs).
+Proof. exact src_pubkey_reply_verbatim. Qed.
